@@ -915,9 +915,10 @@ func (w *worldA) reloadCfg() {
 func (w *worldA) doReload(op Op) {
 	c := w.cfg
 	for i := 0; i < w.nWorkers; i++ {
-		if w.tr.Parked(fmt.Sprintf("collect_worker/%d", i)) {
-			// a parked worker would wake with both its backlog and the reload
-			// signal ready, and Go's select cannot be seeded: skip
+		if w.tr.Parked(fmt.Sprintf("collect_worker/%d", i)) || w.blockedOnSend(i) {
+			// a parked worker (or one stuck handing a trace to a full outgoing queue)
+			// would wake with both its backlog and the reload signal ready, and Go's
+			// select cannot be seeded: skip
 			w.out.Probe("reload_skipped_worker_parked")
 			return
 		}
